@@ -184,6 +184,15 @@ pub fn check(t: &Trace<'_>, out: &mut CaseOut) -> bool {
                 out.violations.push(viol("C01", "C01/sequence/second-CONNECT", format!("conn {}: CONNECT as packet {}", ci.idx, i)));
             }
         }
+        if let Some(dp) = s.packets.iter().find(|p| matches!(p.pkt, CPacket::Disconnect { .. })) {
+            if dp.start < exempt_from && !ops_here.iter().any(|o| o.kind == "disconnect" && o.ev_call < dp.ev) {
+                out.violations.push(viol(
+                    "C01",
+                    "C01/sequence/DISCONNECT-without-disconnect-call",
+                    format!("conn {}: a DISCONNECT was written at offset {} although disconnect() was never called on this connection", ci.idx, dp.start),
+                ));
+            }
+        }
         if let Some(d) = s.packets.iter().position(|p| matches!(p.pkt, CPacket::Disconnect { .. })) {
             let end = s.packets[d].end;
             if s.bytes.len() > end && end < exempt_from {
